@@ -25,7 +25,7 @@ fn sx_fault(f: &Option<Fault>) -> String {
         None => "-".to_string(),
         Some(Fault::Error) => "error".to_string(),
         Some(Fault::Unbounded) => "unbounded".to_string(),
-        Some(Fault::Perturbed(_)) => "perturbed".to_string(),
+        Some(Fault::Perturbed(d)) => if d.is_finite() { "perturbed".to_string() } else { "perturbed-nonfinite".to_string() },
         Some(Fault::FarOff) => "faroff".to_string(),
     }
 }
@@ -304,7 +304,9 @@ fn fault_of(kind: usize) -> Fault {
         0 => Fault::Error,
         1 => Fault::Unbounded,
         2 => Fault::Perturbed(0.001953125),
-        _ => Fault::FarOff,
+        3 => Fault::FarOff,
+        // a "point" that is no point at all: it lies in no polytope
+        _ => Fault::Perturbed(f64::NAN),
     }
 }
 
@@ -324,10 +326,23 @@ fn case_fault(r: &mut Rng, id: usize, thorough: bool, out: &mut String) {
         let mut sub = 0;
         let mut plans: Vec<HashMap<usize, Fault>> = Vec::new();
         for pos in 0..ncalls.min(12) {
-            for kind in 0..4 {
+            for kind in 0..5 {
                 let mut p = HashMap::new();
                 p.insert(pos, fault_of(kind));
                 plans.push(p);
+            }
+        }
+        // two faults of different kinds on neighbouring calls
+        for pos in 0..ncalls.saturating_sub(1).min(3) {
+            for ka in 0..4 {
+                for kb in 0..4 {
+                    if ka != kb {
+                        let mut p = HashMap::new();
+                        p.insert(pos, fault_of(ka));
+                        p.insert(pos + 1, fault_of(kb));
+                        plans.push(p);
+                    }
+                }
             }
         }
         if thorough {
@@ -335,7 +350,7 @@ fn case_fault(r: &mut Rng, id: usize, thorough: bool, out: &mut String) {
                 let mut p = HashMap::new();
                 for pos in 0..ncalls {
                     if r.chance(1, 3) {
-                        p.insert(pos, fault_of(r.below(4)));
+                        p.insert(pos, fault_of(r.below(5)));
                     }
                 }
                 plans.push(p);
@@ -367,18 +382,30 @@ fn case_fault(r: &mut Rng, id: usize, thorough: bool, out: &mut String) {
         let ncalls = base_log.iter().filter(|e| matches!(e, Event::Lp { .. })).count();
         let mut plans: Vec<HashMap<usize, Fault>> = Vec::new();
         for pos in 0..ncalls.min(12) {
-            for kind in 0..4 {
+            for kind in 0..5 {
                 let mut p = HashMap::new();
                 p.insert(pos, fault_of(kind));
                 plans.push(p);
+            }
+        }
+        for pos in 0..ncalls.saturating_sub(1).min(3) {
+            for ka in 0..4 {
+                for kb in 0..4 {
+                    if ka != kb {
+                        let mut p = HashMap::new();
+                        p.insert(pos, fault_of(ka));
+                        p.insert(pos + 1, fault_of(kb));
+                        plans.push(p);
+                    }
+                }
             }
         }
         if thorough {
             for a in 0..ncalls.min(6) {
                 for b in (a + 1)..ncalls.min(6) {
                     let mut p = HashMap::new();
-                    p.insert(a, fault_of(r.below(4)));
-                    p.insert(b, fault_of(r.below(4)));
+                    p.insert(a, fault_of(r.below(5)));
+                    p.insert(b, fault_of(r.below(5)));
                     plans.push(p);
                 }
             }
@@ -386,7 +413,7 @@ fn case_fault(r: &mut Rng, id: usize, thorough: bool, out: &mut String) {
                 let mut p = HashMap::new();
                 for pos in 0..ncalls {
                     if r.chance(1, 3) {
-                        p.insert(pos, fault_of(r.below(4)));
+                        p.insert(pos, fault_of(r.below(5)));
                     }
                 }
                 plans.push(p);
